@@ -107,6 +107,28 @@ impl GenerationCache {
         Ok(previous_cache.combined_hash != current_cache.combined_hash)
     }
 
+    /// Check that every file a generation run writes is still present in the output directory.
+    ///
+    /// The cache only records hashes of the inputs; callers combine it with this test so that a
+    /// deleted output file is regenerated instead of being reported as up to date.
+    pub fn outputs_present<P: AsRef<Path>>(
+        output_dir: P,
+        has_events: bool,
+        visualize_deps: bool,
+    ) -> bool {
+        let mut expected = vec!["types.ts", "commands.ts", "index.ts"];
+        if has_events {
+            expected.push("events.ts");
+        }
+        if visualize_deps {
+            expected.push("dependency-graph.txt");
+            expected.push("dependency-graph.dot");
+        }
+        expected
+            .iter()
+            .all(|name| output_dir.as_ref().join(name).is_file())
+    }
+
     /// Get the cache file path
     fn cache_path<P: AsRef<Path>>(output_dir: P) -> PathBuf {
         output_dir.as_ref().join(CACHE_FILE_NAME)
